@@ -57,10 +57,13 @@ class TypeParser:
     def parse(self, s):
         if s.startswith('(lambda at ') or '(lambda at ' in s:
             return ('opaque', s)
-        self.toks = tokenize(s)
-        self.i = 0
-        t = self._type()
-        if self.i != len(self.toks):
+        # the cursor lives in a per-call copy: checks translate functions on several threads
+        import copy
+        inst = copy.copy(self)
+        inst.toks = tokenize(s)
+        inst.i = 0
+        t = inst._type()
+        if inst.i != len(inst.toks):
             # function types etc.
             return ('opaque', s)
         return t
